@@ -299,6 +299,54 @@ func main() {
 		})
 	}
 
+	// two families that load the same font FILE must not share state: the second one changes its name and features
+	fontPath := *repo + "/resources/DejaVuSerif.ttf"
+	add("fontfile-history-0", func() []byte {
+		a := canvas.NewFontFamily("serif-a")
+		if err := a.LoadFontFile(fontPath, canvas.FontRegular); err != nil {
+			return []byte(err.Error())
+		}
+		fa := a.Face(10, canvas.Black)
+		before := fmt.Sprintf("%s %.6f", fa.Name(), fa.TextWidth("AVATAR To WAVE"))
+		b := canvas.NewFontFamily("serif-b")
+		if err := b.LoadFontFile(fontPath, canvas.FontRegular); err != nil {
+			return []byte(err.Error())
+		}
+		b.SetFeatures("-kern")
+		_ = b.Face(10, canvas.Black).TextWidth("AVATAR To WAVE")
+		fa2 := a.Face(10, canvas.Black)
+		after := fmt.Sprintf("%s %.6f", fa2.Name(), fa2.TextWidth("AVATAR To WAVE"))
+		res := "family a before: " + before + " | after family b loaded the same file and switched kerning off: " + after
+		if before != after {
+			res = "HISTORY-MISMATCH " + res
+		}
+		return []byte(res)
+	})
+	// the system font list installed LAST answers a look-up, whatever was looked up before
+	add("systemfont-history-0", func() []byte {
+		tmp, err := os.MkdirTemp("", "verif-c20-")
+		if err != nil {
+			return []byte(err.Error())
+		}
+		defer os.RemoveAll(tmp)
+		var found []string
+		for _, sub := range []string{"fonts-a", "fonts-b"} {
+			dir := tmp + "/" + sub
+			os.MkdirAll(dir, 0o755)
+			os.WriteFile(dir+"/DejaVuSerif.ttf", fontBytes, 0o644)
+			if err := canvas.CacheSystemFonts(tmp+"/"+sub+".cache", []string{dir}); err != nil {
+				return []byte(err.Error())
+			}
+			fn, ok := canvas.FindSystemFont("DejaVu Serif", canvas.FontRegular)
+			found = append(found, fmt.Sprintf("%v:%v", ok, strings.HasPrefix(fn, dir+"/")))
+		}
+		res := "look-ups after installing list a, then list b (found:in the installed directory): " + strings.Join(found, " ")
+		if found[0] != "true:true" || found[1] != "true:true" {
+			res = "HISTORY-MISMATCH " + res
+		}
+		return []byte(res)
+	})
+
 	hash := func(b []byte) string { h := sha256.Sum256(b); return hex.EncodeToString(h[:8]) }
 	// A: sequential, in order
 	A := make([][]byte, len(jobs))
